@@ -61,3 +61,10 @@ claim("C04",
       "Authenticate nil => additionally step == cert, round == block round, digest == block digest.",
       "Cryptography idealised: signature / credential validity are arbitrary boolean functions of (sender, message) (tables), a signature for one message says nothing about another (single shared nondeterministic answer). "
       "AsyncVoteVerifier.verifyVote/verifyEqVote run the real verify synchronously (execpool concurrency and cancellation are outside the check). Stubs are substituted natively through overlay hook variables for replay.")
+
+claim("C32",
+      "Each opcode function is called directly on an EvalContext whose stack holds fully symbolic operands and is compared with an exact-integer reference: + - * / % (error iff overflow / negative / zero divisor, exact value), "
+      "< > <= >= == != && || !, | & ^ ~, shl/shr (all 64 shift amounts case-split, error iff amount > 63), bitlen (input space partitioned by the expected answer), addw, mulw, divw (error iff divisor 0 or quotient >= 2^64, "
+      "0 <= num - q*y < y), itob, btoi (lengths 0..9), sqrt (operand < 2^16 quick / 2^32 thorough), and byte math b+ b- b* b/ b% b< b> b<= b>= b== b!= on big-endian operands of symbolic length and content "
+      "(<= 2 bytes quick, <= 4 thorough; * / % <= 1 / 2 bytes) with math/big executed as real pure-Go code, plus the 64-byte input limit. A Go panic inside an opcode is a violation.",
+      "64-bit uint ops are full width. exp/expw/divmodw/bsqrt and bitwise byte ops are not yet covered. math/big is loaded with the math_big_pure_go tag (same semantics as the assembly kernels used natively).")
